@@ -370,6 +370,47 @@ def A_cli(name, maxfiles):
     return run
 
 
+def A_coldstart(name, maxcalls, procs, callset, lines=400, runs=24):
+    """C10: the first uses of a type / pool in a FRESH process, from several goroutines at once: the same history lines are
+    given to many freshly started replayer processes (race-detector build), each of which starts all its workers at once."""
+    def run(ctx):
+        t0 = time.time()
+        consts = {'MaxCalls': maxcalls, 'Procs': procs, 'CallSet': '"%s"' % callset, 'EmitOn': 'TRUE'}
+        cfg = ctx.write_cfg('run_' + name, 'HSpec', consts, invariants=('InputsUnchanged', 'ResultIsFunctionOfCall'), action_constraint='Emit')
+        p = subprocess.run(['timeout', '3000'] + ctx.tlc_cmd('History', cfg), cwd=ctx.specdir(), env=ctx.env, capture_output=True, text=True)
+        out = p.stdout
+        got = [l for l in out.split('\n') if l.startswith('"{')]
+        if len(got) < lines:
+            raise Broken('stage %s: TLC printed only %d history lines' % (name, len(got)))
+        step = max(1, len(got) // lines)
+        batch = '\n'.join(got[::step][:lines]) + '\n'
+        replay = ctx.build('replay', race=True)
+        renv = dict(ctx.env, GORACE='halt_on_error=1 exitcode=66')
+        n = 0
+        for r in range(runs):
+            rargs = [replay, '-prop', ctx.prop, '-seed', str(ctx.seed + r), '-findings', FINDINGS, '-replays', REPLAYS, '-opt', 'gcflush=0']
+            q = subprocess.run(rargs, input=batch, capture_output=True, text=True, env=renv)
+            n += 1
+            if q.returncode == 66:
+                os.makedirs(REPLAYS, exist_ok=True)
+                path = os.path.join(REPLAYS, '%s-race-%s-%d.json' % (ctx.prop, name, r))
+                json.dump({'property': ctx.prop, 'kind': 'data-race', 'detail': 'the Go race detector reported a data race in a freshly started process',
+                           'case': {'stage': name, 'constants': consts, 'run': r, 'race_report': q.stderr[-6000:]}}, open(path, 'w'), indent=1)
+                print('VIOLATION property=%s replay=%s' % (ctx.prop, path))
+                print('  kind=data-race (cold start) ' + (q.stderr.strip().split('\n')[0] if q.stderr.strip() else ''))
+                ctx.violations += 1
+                break
+            if q.returncode not in (0, 1):
+                raise Broken('stage %s: replayer failed (exit %d): %s' % (name, q.returncode, q.stderr[-1500:]))
+            ctx.absorb_summary(q.stdout, name)
+            if q.returncode == 1:
+                break
+        ctx.exhaustive = False
+        ctx.cov['stages'].append({'stage': name, 'module': 'History', 'direction': 'A, cold start: %d fresh processes x %d history lines' % (n, lines),
+                                  'constants': consts, 'wall_s': round(time.time() - t0, 1)})
+    return run
+
+
 def A_history(name, maxcalls, procs, callset, **kw):
     def run(ctx):
         consts = {'MaxCalls': maxcalls, 'Procs': procs, 'CallSet': '"%s"' % callset, 'EmitOn': 'TRUE'}
@@ -745,14 +786,16 @@ PLANS.update({
                                 'Call_CreateMergePatch', 'Call_Equal'] for t in ('quick', 'thorough')},
     },
     'C10': {
-        'quick': [A_history('c2x3', 3, 2, 'small', race=True)],
+        'quick': [A_history('c2x3', 3, 2, 'small', race=True), A_coldstart('cold', 2, 3, 'small', lines=150, runs=12)],
         'thorough': [A_history('c3x3', 3, 3, 'small', race=True, timeout=9000), A_history('c4x3', 3, 4, 'small', race=True, timeout=9000),
-                     A_history('c2x2f', 2, 2, 'full', race=True, timeout=9000)],
+                     A_history('c2x2f', 2, 2, 'full', race=True, timeout=9000), A_coldstart('cold', 2, 3, 'small', runs=80)],
         'rule': 'TLC enumerates every assignment of calls to 2 (quick) / 3 processes and every interleaving at call granularity (the contract '
                 'makes each call one atomic step); for every such line the replayer starts one goroutine per process, free-running, over the '
                 'shared buffers and the shared decoded Patch values, 16 lines in flight at once, in a binary built with the Go race detector '
                 '(halt_on_error): every call must return the result its arguments determine (bytes equal to the first sequential/concurrent '
-                'occurrence) and the race detector must stay silent; a race report is the violation; distinct_nontrivial counts lines',
+                'occurrence) and the race detector must stay silent; a race report is the violation; cold start: 150 of the lines are given to 12 '
+                '(thorough 80) FRESHLY STARTED processes, so that the first use of every type cache and pool happens from several goroutines at '
+                'once; distinct_nontrivial counts lines',
         'exhaustive': True,
         'assumptions': HIST_ASSUME + ['absence of a race report is evidence, not proof: the race detector observes the schedules that happened; '
                                       'the specification supplies workloads and expected results (DESIGN.md section 8)'],
